@@ -330,10 +330,12 @@ def gen_case(r, tier):
                 ops.append({"op": "warmup", "n": r.randint(2, 25)})
             elif x < 0.83:
                 ops.append({"op": "state_roundtrip"})
-            elif x < 0.90:
+            elif x < 0.88:
                 ops.append({"op": "reload"})
-            elif x < 0.95:
+            elif x < 0.92:
                 ops.append({"op": "retarget"})
+            elif x < 0.96:
+                ops.append({"op": "set_scale", "factor": r.choice([0.3, 0.5, 2.0])})
             else:
                 ops.append({"op": "reinitialize"})
         if not any(o["op"] in ("sample", "warmup") for o in ops):
@@ -346,6 +348,9 @@ def gen_case(r, tier):
         method = r.choice(["sample", "sample", "sample_adapt"]) if kind != "MALA" else "sample"
         N = r.randint(10, 40) if method == "sample_adapt" else r.randint(3, 40)
         ops = [{"op": method, "N": N, "Nb": r.choice([0, 0, 3])}]
+        if r.random() < 0.3:
+            ops.append({"op": "set_scale", "factor": r.choice([0.3, 0.5, 2.0])})
+            ops.append({"op": method, "N": r.randint(10, 25), "Nb": 0})
     sc["iface"] = iface
     sc["fault_rate"] = r.choice([0.0, 0.0, 0.05, 0.15])
     sc["fault_kind"] = r.choice(["nan", "-inf"])
@@ -473,6 +478,12 @@ class MHRun:
                 with core.setup_stream(self.setup_seed):
                     s.reinitialize()
                 o.history = "after_reinitialize"
+            elif k == "set_scale":
+                # hand-tuning: the public scale attribute is re-assigned between runs
+                new = float(op["factor"]) * np.asarray(s.scale, float)
+                s.scale = new if np.ndim(new) else float(new)
+                o.history = "after_scale_assignment"
+                ctx.fault("scale_reassigned")
             elif k == "retarget":
                 s.target = s.target          # public target setter on an initialised sampler
                 o.history = "after_retarget"
@@ -502,17 +513,23 @@ class MHRun:
         box["o"] = o
         self.sim.policy = o.policy
         self._arm_faults(refs["p_logd"] if FAMILY[self.kind] != "pcn" else refs["p_forward"], o)
-        op = self.case["ops"][0] if self.case["ops"] else None
-        if op is None:
-            return
-        ctx.log("op", op["op"], op["N"], op["Nb"])
-        if op["op"] == "sample_adapt":
-            o.history = "during_adaptation"
-        o.begin(s.x0)
-        try:
-            getattr(s, op["op"])(int(op["N"]), int(op["Nb"]))
-        finally:
-            o.active = False
+        for op in self.case["ops"]:
+            if op["op"] == "set_scale":
+                ctx.log("op", "set_scale", op["factor"])
+                if s.scale is not None:
+                    new = float(op["factor"]) * np.asarray(s.scale, float)
+                    s.scale = new if np.ndim(new) else float(new)
+                    o.history = "after_scale_assignment"
+                    ctx.fault("scale_reassigned")
+                continue
+            ctx.log("op", op["op"], op["N"], op["Nb"])
+            if op["op"] == "sample_adapt":
+                o.history = "during_adaptation"
+            o.begin(s.x0)
+            try:
+                getattr(s, op["op"])(int(op["N"]), int(op["Nb"]))
+            finally:
+                o.active = False
 
 
 class MHKernelEngine(EngineBase):
@@ -550,7 +567,7 @@ class MHKernelEngine(EngineBase):
         import json
         for i, op in enumerate(case["ops"]):
             for key in ("n", "N"):
-                if key in op and op[key] > 2:
+                if key in op and isinstance(op[key], int) and op[key] > 2:
                     lo = 10 if op["op"] == "sample_adapt" else 1
                     for v in sorted({max(lo, op[key] // 2), max(lo, op[key] - 1)}):
                         if v < op[key]:
